@@ -85,6 +85,9 @@ fn main() {
             let (cfg, st) = match name {
                 "stalled-probe" => scripts::stalled_probe_script(&mut r, 0, runner::Tier::Quick),
                 "ping-between-pieces" => scripts::ping_between_pieces_script(&mut r, 0, runner::Tier::Quick),
+                "replay-blocked" => scripts::replay_blocked_by_a_smaller_limit_script(&mut r, 0, runner::Tier::Quick),
+                "c11" => scripts::c11_script(&mut r, 0, runner::Tier::Quick),
+                "c14" => scripts::c14_script(&mut r, 0, runner::Tier::Quick),
                 _ => usage(),
             };
             println!("{}", serde_json::to_string_pretty(&serde_json::json!({"cfg": cfg, "steps": st})).unwrap());
